@@ -24,6 +24,7 @@ import (
 
 	autoscalingv1beta1 "sigs.k8s.io/karpenter/pkg/apis/autoscaling/v1beta1"
 	v1 "sigs.k8s.io/karpenter/pkg/apis/v1"
+	"sigs.k8s.io/karpenter/pkg/apis/v1alpha1"
 	"sigs.k8s.io/karpenter/pkg/cloudprovider"
 	"sigs.k8s.io/karpenter/pkg/controllers/disruption"
 	"sigs.k8s.io/karpenter/pkg/controllers/state"
@@ -152,6 +153,15 @@ func apiEntries(e *Env, out Snapshot) (Snapshot, error) {
 		}
 		for i := range dcs.Items {
 			add("DeviceClass", &dcs.Items[i])
+		}
+	}
+	if e.Store != nil {
+		var ovs v1alpha1.NodeOverlayList
+		if err := c.List(e.Ctx, &ovs); err != nil {
+			return nil, err
+		}
+		for i := range ovs.Items {
+			add("NodeOverlay", &ovs.Items[i])
 		}
 	}
 	if e.VPods != nil {
@@ -383,6 +393,7 @@ func (e *Env) Take(cands []*disruption.Candidate) (Snapshot, error) {
 	out = providerEntries(e, out)
 	out = draEntries(e, out)
 	out = virtualPodEntries(e, out)
+	out = overlayEntries(e, out)
 	out = e.inputEntries(cands, out)
 	return out.sorted(), nil
 }
